@@ -152,14 +152,18 @@ def run(ctx):
                     blk = next((a for a in ix.ancestors(x) if a.get("k") == "Block"), None)
                     end_ = lambda s_: (s_.get("sp") or (s_.get("e") or s_.get("init") or {}).get("sp") or [0, 1 << 60])[1]
                     prev = [s_ for s_ in (blk["stmts"] if blk else ()) if end_(s_) <= x["sp"][0]]
-                    last = hq.peel(prev[-1].get("e") or {}) if prev else {}
+                    # the last statement of the block before the push that touches the buffer at all must be the resize
+                    # (statements about other things may stand in between)
+                    touching = [hq.peel(s_.get("e") or s_.get("init") or {}) for s_ in prev
+                                if any(y.get("k") == "Local" and y.get("lid") == arg["lid"] for y, _ in H.walk(s_))]
+                    last = touching[-1] if touching else {}
                     obs = H.show(last)[:80] if last else None
                     if last.get("k") == "MethodCall" and last["name"] == "resize" and len(last["args"]) == 2:
                         rv, a0 = hq.peel(last["recv"]), hq.peel(last["args"][0])
                         ok = rv.get("k") == "Local" and rv["lid"] == arg["lid"] and H.lit_val(hq.peel(last["args"][1])) == 0 and \
                             a0.get("k") == "MethodCall" and a0["name"] == "capacity" and hq.peel(a0["recv"]).get("k") == "Local" and hq.peel(a0["recv"])["lid"] == arg["lid"]
                 ctx.check(ok, R, "%s::pooled-buffer-full-length#%d" % (H.short(path), n), H.loc(b, x),
-                          "a buffer pushed into vec_pool must have been resized to its capacity in the statement before "
+                          "a buffer pushed into vec_pool must have been resized to its capacity by the last statement that touches it before the push "
                           "(get_next_space hands it out unchanged and the block loop fills all of it)", observed=obs)
         ctx.check(n >= 2, R, "vec_pool::push-sites", "", "push sites of the buffer pool found", observed=n)
         gb = ctx.hir("<ruzstd::encoding::match_generator::MatchGeneratorDriver as ruzstd::encoding::Matcher>::get_next_space")
